@@ -58,3 +58,8 @@ package ice
 //@   ensures result0 ==> cancelled
 //@   ensures !result0 ==> cancelled == old(cancelled)
 //@   ensures old(cancelled) ==> cancelled
+//@
+//@ func mergeToWriter
+//@   ensures[C09,C15] err == nil ==> footerVal != nil && fresh(footerVal)
+//@
+//@ guardedby[C09] Segment.fieldFSTs m
